@@ -163,7 +163,71 @@ class Instrs(CallsMixin):
         m = getattr(self, 'op_' + op, None)
         if m is None:
             raise OutOfSubset('instruction ' + op)
+        if st.ro:
+            self.ro_track(st, fr, ins)
         return m(st, fr, b, i, ins)
+
+    # ------------------------------------------------------------ read-only results
+    # A callee contract may declare `opt result readonly`: what it returns is shared with others
+    # (a cache of a lower layer, say) and must not be written through. Provenance is tracked on the
+    # registers of the function under contract (and of what is inlined into it): a register is
+    # derived from such a result if it is computed from one (field/element address, load, type
+    # assertion, conversion, extraction, phi, append/slicing). A store or map update whose address
+    # (map) operand is derived from one is a violation, reported as `<fn>.readonly[<callee>]`.
+    RO_DERIVING = ('FieldAddr', 'IndexAddr', 'Field', 'Index', 'TypeAssert', 'ChangeType', 'Convert', 'Extract',
+                   'MakeInterface', 'Slice', 'UnOp', 'ChangeInterface', 'Lookup', 'SliceToArrayPointer')
+
+    def ro_src(self, st, fr, v):
+        if isinstance(v, dict) and v.get('k') in ('reg', 'param', 'freevar'):
+            return st.ro.get((id(fr), v.get('name')))
+        return None
+
+    def ro_track(self, st, fr, ins):
+        op = ins['op']
+        name = ins.get('name')
+        if op == 'Store':
+            src = self.ro_src(st, fr, ins.get('addr'))
+            if src:
+                self.ro_violation(st, fr, ins, src, 'store')
+            return
+        if op == 'MapUpdate':
+            src = self.ro_src(st, fr, ins.get('map'))
+            if src:
+                self.ro_violation(st, fr, ins, src, 'map update')
+            return
+        if name is None:
+            return
+        src = None
+        if op in self.RO_DERIVING:
+            if op == 'UnOp' and ins.get('uop') != '*':
+                return
+            for k in ('x', 'tuple'):
+                src = src or self.ro_src(st, fr, ins.get(k))
+        elif op == 'Call':
+            call = ins.get('call') or {}
+            fnv = call.get('fn') or {}
+            if fnv.get('k') == 'builtin' and fnv.get('name') in ('append', 'copy'):
+                args = call.get('args') or []
+                if args:
+                    src = self.ro_src(st, fr, args[0])
+                    if src and fnv.get('name') == 'copy':
+                        self.ro_violation(st, fr, ins, src, 'copy into')
+                        return
+        if src:
+            st.ro[(id(fr), name)] = src
+        elif (id(fr), name) in st.ro:
+            del st.ro[(id(fr), name)]
+
+    def ro_violation(self, st, fr, ins, src, what):
+        from .engine import Result
+        cx = self.cx
+        if not cx.path_feasible():
+            return
+        n = '%s.readonly[%s]' % (cx.short, src)
+        cx.ro_failed = True
+        cx.results.append(Result(n, 'readonly', cx.fnkey, 'failed', seconds=0.0, pos=ins.get('pos'),
+                                 text='nothing is written through a value obtained from %s' % src,
+                                 note='%s through a value derived from the read-only result of %s' % (what, src)))
 
     def setreg(self, st, ins, v):
         st.regs[ins['name']] = v
